@@ -62,6 +62,21 @@ def mh_behaviour(rng, alg, fam, total=None, pieces=None):
     return cmds
 
 
+def mh_big_behaviour(rng, alg, fam, total):
+    """a stream of `total` bytes (>= 2^29) fed in a few large updates"""
+    b = rng.randrange(2, 1 << 20)
+    seed = rng.getrandbits(64) if alg == "murmur" else 0
+    cmds = ["mhinit 0 %s %s %d %d" % (alg, fam, seed >> 32, seed & 0xFFFFFFFF)]
+    first = rng.choice([total, total - 1500, (1 << 29) - 7])
+    first = min(first, total)
+    off = rng.randrange(1 << 20)
+    for ln in [x for x in (first, total - first) if x > 0 or x == total]:
+        cmds.append("mhupd 0 %d %d %d e" % (b, off, ln))
+        off += ln
+    cmds.append("mhfin 0")
+    return cmds
+
+
 def mh_jobs(rng, alg, n_per_fam, fams=None):
     jobs = {}
     for fam in (fams or MH_FAMS):
